@@ -631,3 +631,28 @@ def eval_sign(t, a_key, b_key, ordering):
 def sign_triple(t, a_key, b_key):
     sg = lambda v: (v > 0) - (v < 0)
     return tuple(sg(eval_sign(t, a_key, b_key, o)) for o in ("<", "=", ">"))
+
+
+def dnf(t, pol=True):
+    """Disjunctive normal form of a condition tree as a frozenset of
+    frozensets of relational atoms (op, a, b); comparisons canonicalised so
+    that mirrored forms compare equal."""
+    from .paths import norm_literal
+    t = strip_casts(t)
+    if isinstance(t, dict) and t.get("k") == "un" and t.get("op") == "!":
+        return dnf(t["x"], not pol)
+    if isinstance(t, dict) and t.get("k") == "bin" and t["op"] in ("&&", "||"):
+        conj = (t["op"] == "&&") == pol
+        l, r = dnf(t["l"], pol), dnf(t["r"], pol)
+        if conj:
+            return frozenset(a | b for a in l for b in r)
+        return frozenset(l | r)
+    atoms = norm_literal(t, pol)
+    return frozenset([frozenset(_canon(a) for a in atoms)])
+
+
+def _canon(a):
+    op, x, y = a
+    if (y, x) < (x, y) and _num(y) is None or (_num(x) is not None and _num(y) is None):
+        return (MIRROR[op], y, x)
+    return a
